@@ -134,7 +134,7 @@ pub fn gen_ops(r: &mut Rng, n: usize, big: bool, noise: u64, max_depth: usize) -
         let arbitrary = r.chance(noise);
         let mut value = |r: &mut Rng, st: &Vec<Fr>, interned: usize| -> Op {
             match r.below(12) {
-                0 => Op::Bool(*r.pick(&[0u32, 1, 1, 2, u32::MAX])), 1 => Op::Null, 2 | 3 => Op::I32(gen_i32(r)), 4 => Op::F64(gen_f64(r)),
+                0 => Op::Bool(*r.pick(&[0u32, 1, 1, 2, u32::MAX, 0x100, 0x1_0000, 0x8000_0000, 0xffff_ff00, 0xff, 0x101])), 1 => Op::Null, 2 | 3 => Op::I32(gen_i32(r)), 4 => Op::F64(gen_f64(r)),
                 5 | 6 => { let s = gen_str(r, big && bigs < 6); if s.len() > 200 { bigs += 1; } Op::Str(s) }
                 7 => if interned > 0 { Op::IStr(r.below(interned as u64) as usize) } else { Op::Null },
                 8 | 9 => if st.len() < max_depth { Op::SObj(*r.pick(&lens_small)) } else { Op::I32(gen_i32(r)) },
